@@ -163,6 +163,14 @@ def exact(ctx):
     rets = nodes_of_type(f, ast.Return)
     ctx.check(rets and all(dotted(r.value) == "data" and any(i is c and not pol for (i, _, pol) in g.conditions_at(g.nodes_of(r))) for r in rets), c, "data is returned only with the exact length")
     ctx.check(f.body.index(c) > f.body.index(loops[0]), c, "the comparison follows the read loop")
+    lp = loops[0]
+    rd = [a for a in nodes_of_type(lp, ast.Assign) if isinstance(a.value, ast.Call) and call_attr(a.value) == "read"]
+    acc = [a for a in nodes_of_type(lp, ast.AugAssign) if dotted(a.target) == "data" and isinstance(a.op, ast.Add)]
+    ok = bool(rd) and bool(acc) and dotted(acc[0].value) == rd[0].targets[0].id and g.every_path_from(g.nodes_of(rd[0]), g.nodes_of_all(acc), g.nodes_of(lp) + [g.exit], skip_exc=True)
+    ctx.check(bool(ok), acc[0] if acc else lp, "every block read is appended to the data before the loop decides to go on or stop",
+              "_read_bytes does not accumulate each block it reads: the length never reaches the requested size, the rest of the file is consumed and every array load fails")
+    init = [a for a in f.body if isinstance(a, ast.Assign) and "data" in stores_to(a)]
+    ctx.check(bool(init) and unparse(init[0].value) in ("bytes()", "b''") and f.body.index(init[0]) < f.body.index(lp), init[0] if init else f, "accumulation starts from empty bytes")
     ra = ctx.repo.func(NP, "NumpyArrayWrapper.read_array")
     fl = [l for l in nodes_of_type(ra, ast.For) if isinstance(l.iter, ast.Call) and call_name(l.iter) == "range"]
     ctx.need(fl, "chunk loop not found")
